@@ -3,7 +3,7 @@ _NOTE = ("per-n proofs (n range in evidence); float arithmetic treated as exact 
          "z3/cvc5 trusted (A4); spec functions trusted as the intended mathematics (A5); see evidence trusted_base")
 CHECKS = {
     "C01": {"level": "proof", "technique": "contract-based deductive verification (symbolic execution of the real code under a numpy model -> SMT obligations, z3/cvc5); bounded run-time contracts for float/history clauses",
-            "text": "Containment, ordering and exactness postconditions of both superadditive computers discharged for all real-valued superadditive games, all knowledge sets and arbitrary stale tables per n; operation histories by an inductive invariant; float clause bounded.",
+            "text": "Containment, ordering and exactness postconditions of both superadditive computers discharged for all real-valued superadditive games, all knowledge sets and arbitrary stale tables per n=2..5 (6 thorough); operation histories by an inductive invariant plus whole-history scenarios with several operations between recomputes; float clause and long histories bounded.",
             "note": _NOTE},
     "C02": {"level": "proof", "technique": "contract-based deductive verification: functional postcondition table=(L,U) + ghost lemmas over spec functions (z3); LP cross-check bounded",
             "text": "Both computers proved equal to the spec functions L/U for all games and knowledge sets per n; ghost lemmas prove L/U are the attained extremes over the completion polytope.",
